@@ -303,12 +303,18 @@ func (f *fragmentList) build(in *layers.IPv4) (*layers.IPv4, error) {
 		debug.Printf("defrag: building - next is %d\n", currentOffset)
 	}
 
+	// the total length of the datagram counts its header
+	total := int(in.IHL)*4 + len(final)
+	if total > IPv4MaximumSize {
+		return nil, errors.New("defrag: building - datagram too big")
+	}
+
 	// TODO recompute IP Checksum
 	out := &layers.IPv4{
 		Version:    in.Version,
 		IHL:        in.IHL,
 		TOS:        in.TOS,
-		Length:     f.Highest,
+		Length:     uint16(total),
 		Id:         in.Id,
 		Flags:      0,
 		FragOffset: 0,
